@@ -426,7 +426,9 @@ class MailboxWorld:
                 cn = c.conn
                 if cn and cn.open and not cn.stopping:
                     for k in range(1, len(cn.down)):
-                        if all(cn.down[j]["type"] == "message" for j in range(k + 1)):
+                        # a stored/broadcast `message` overtakes earlier responses (other messages, or replies such as
+                        # `released` that the server produces independently of the mailbox broadcast)
+                        if cn.down[k]["type"] == "message" and any(cn.down[j]["type"] == "message" for j in range(k)):
                             evs.append(("reorder", c.ci, k))
         if self.dup_left > 0:
             for c in self.clients:
@@ -688,6 +690,8 @@ class MailboxWorld:
             c.__dict__.setdefault("_delivered", []).append(msg)
         if msg.get("type") == "allocated":
             c.ghost["told_np"].add(msg["nameplate"])
+        if msg.get("type") == "error" and isinstance(msg.get("orig"), dict) and msg["orig"].get("type") in ("close", "release"):
+            c.ghost["close_rejected"] = msg["orig"].get("type") + ":" + str(msg.get("error"))
         if c.ghost["cause"] is None:
             if msg.get("type") == "error":
                 c.ghost["cause"] = ("error",)
